@@ -324,6 +324,12 @@ type Info struct {
 func Inspect(node datamodel.Node) (Info, error) {
 	var res Info
 
+	// An envelope is exactly [signature, SigPayload]: anything else in the list
+	// would be outside the signed part, yet change the token's CID.
+	if node.Kind() != datamodel.Kind_List || node.Length() != 2 {
+		return Info{}, fmt.Errorf("expected a list of exactly two items: signature and SigPayload")
+	}
+
 	signatureNode, err := node.LookupByIndex(0)
 	if err != nil {
 		return Info{}, err
